@@ -7,7 +7,7 @@ use crate::gen::{self, DocParams, QGen};
 use crate::npath::{self, Step};
 use crate::report;
 use crate::rng::{derive, Rng};
-use crate::simdoc::{self, FatDoc, Personality, Sim, SimDoc};
+use crate::simdoc::{self, FatDoc, Personality, ShareDoc, Sim, SimDoc};
 use jsonpath_rust::JsonPath;
 use serde::{Deserialize, Serialize};
 use serde_json::{json, Value};
@@ -21,6 +21,9 @@ pub struct Case {
     /// the stub with the large node type (about half a kilobyte per node)
     #[serde(default)]
     pub fat: bool,
+    /// the stub with structural sharing and flyweight constants
+    #[serde(default)]
+    pub shared: bool,
 }
 
 #[derive(Clone, Debug, Serialize, Deserialize)]
@@ -107,6 +110,27 @@ pub fn eval_sim<const P: usize>(doc: &Sim<P>, locs: &HashMap<usize, String>, p: 
     SimEval { canon, counts: simdoc::take_counts(), trace: simdoc::take_trace() }
 }
 
+/// Over the sharing stub a node's address is not its position, so the location column is either
+/// `SHARED` (a legitimate address of the document) or `FOREIGN`.
+pub fn eval_shared(doc: &ShareDoc, p: Personality, q: &str) -> Canon {
+    simdoc::set_personality(p);
+    let mut addrs = std::collections::HashSet::new();
+    doc.addresses(&mut addrs);
+    let r = std::panic::catch_unwind(std::panic::AssertUnwindSafe(|| doc.query_with_path(q)));
+    match r {
+        Err(_) => Err("Panic".into()),
+        Ok(Err(_)) => Err("Err".into()),
+        Ok(Ok(res)) => Ok(res
+            .into_iter()
+            .map(|r| {
+                let path = r.clone().path();
+                let n: &ShareDoc = r.val();
+                (if addrs.contains(&(n as *const ShareDoc as usize)) { "SHARED".to_string() } else { "FOREIGN".to_string() }, path, n.to_value())
+            })
+            .collect()),
+    }
+}
+
 pub fn compare(want: &Canon, got: &Canon) -> Option<Diff> {
     match (want, got) {
         (Err(a), Err(b)) => {
@@ -132,7 +156,7 @@ pub fn compare(want: &Canon, got: &Canon) -> Option<Diff> {
                 if w[i].2 != g[i].2 {
                     return Some(Diff { class: "value-differs".into(), detail: format!("result {} at {}: Value gives {} but the second implementation gives {}", i, w[i].1, w[i].2, g[i].2) });
                 }
-                if w[i].0 != g[i].0 {
+                if w[i].0 != g[i].0 && g[i].0 != "SHARED" {
                     return Some(Diff { class: "location-differs".into(), detail: format!("result {} at {}: the nodes returned sit at different locations ({} vs {})", i, w[i].1, w[i].0, g[i].0) });
                 }
             }
@@ -144,6 +168,11 @@ pub fn compare(want: &Canon, got: &Canon) -> Option<Diff> {
 pub fn check_case(c: &Case) -> Option<Diff> {
     let want = eval_value(&c.doc, &c.query);
     let mut locs = HashMap::new();
+    if c.shared {
+        let sd = ShareDoc::from_value(&c.doc);
+        let got = eval_shared(&sd, Personality(c.personality), &c.query);
+        return compare(&want, &got);
+    }
     let got = if c.fat {
         let sd = FatDoc::from_value(&c.doc);
         sim_locs(&sd, &mut vec![], &mut locs);
@@ -199,7 +228,7 @@ fn shrink_doc(c: &Case, class: &str) -> Case {
         rounds += 1;
         let mut progressed = false;
         for d in cands(&cur.doc) {
-            let cand = Case { personality: cur.personality, doc: d, query: cur.query.clone(), fat: cur.fat };
+            let cand = Case { personality: cur.personality, doc: d, query: cur.query.clone(), fat: cur.fat, shared: cur.shared };
             if check_case(&cand).map(|x| x.class == class).unwrap_or(false) {
                 cur = cand;
                 progressed = true;
@@ -214,7 +243,7 @@ fn shrink_doc(c: &Case, class: &str) -> Case {
     for _ in 0..40 {
         let mut progressed = false;
         for q in gen::shrink_query(&cur.query) {
-            let cand = Case { personality: cur.personality, doc: cur.doc.clone(), query: q, fat: cur.fat };
+            let cand = Case { personality: cur.personality, doc: cur.doc.clone(), query: q, fat: cur.fat, shared: cur.shared };
             if check_case(&cand).map(|x| x.class == class).unwrap_or(false) {
                 cur = cand;
                 progressed = true;
@@ -228,7 +257,7 @@ fn shrink_doc(c: &Case, class: &str) -> Case {
     for _ in 0..100 {
         let mut progressed = false;
         for d in cands(&cur.doc) {
-            let cand = Case { personality: cur.personality, doc: d, query: cur.query.clone(), fat: cur.fat };
+            let cand = Case { personality: cur.personality, doc: d, query: cur.query.clone(), fat: cur.fat, shared: cur.shared };
             if check_case(&cand).map(|x| x.class == class).unwrap_or(false) {
                 cur = cand;
                 progressed = true;
@@ -242,7 +271,7 @@ fn shrink_doc(c: &Case, class: &str) -> Case {
     // a simpler personality that still shows it
     for bit in [4u8, 2, 1] {
         if cur.personality & bit != 0 {
-            let cand = Case { personality: cur.personality & !bit, doc: cur.doc.clone(), query: cur.query.clone(), fat: cur.fat };
+            let cand = Case { personality: cur.personality & !bit, doc: cur.doc.clone(), query: cur.query.clone(), fat: cur.fat, shared: cur.shared };
             if check_case(&cand).map(|x| x.class == class).unwrap_or(false) {
                 cur = cand;
             }
@@ -268,6 +297,7 @@ pub fn tier(name: &str) -> TierCfg {
 struct FamOut {
     evals: u64,
     fat_evals: u64,
+    shared_evals: u64,
     nonempty: u64,
     shapes: BTreeSet<(u8, u64)>,
     counts: [u64; simdoc::N_ACC],
@@ -280,7 +310,7 @@ struct FamOut {
 }
 
 fn run_family(seed: u64, f: u64, q_per_fam: usize) -> FamOut {
-    let mut out = FamOut { evals: 0, fat_evals: 0, nonempty: 0, shapes: BTreeSet::new(), counts: [0; simdoc::N_ACC], by_pers: [0; 8], errs: 0, first: None, n_viol: 0, sample: None, classes: BTreeMap::new() };
+    let mut out = FamOut { evals: 0, fat_evals: 0, shared_evals: 0, nonempty: 0, shapes: BTreeSet::new(), counts: [0; simdoc::N_ACC], by_pers: [0; 8], errs: 0, first: None, n_viol: 0, sample: None, classes: BTreeMap::new() };
     let mut rng = Rng::new(derive(seed, "c15fam", f));
     let p = match f % 11 {
         3 => DocParams { max_nodes: 60 + rng.below(60), max_depth: 2 + rng.below(2), names: gen::NAMES_C15, max_width: 14, long_arrays: true },
@@ -294,6 +324,11 @@ fn run_family(seed: u64, f: u64, q_per_fam: usize) -> FamOut {
     let mut docs = vec![base.clone()];
     for _ in 0..(1 + rng.below(2)) {
         docs.push(gen::perturb_leaf(&mut rng, &base));
+    }
+    if f % 6 == 1 {
+        // the same subtree at several positions: what a sharing implementation stores once
+        let sub = base.clone();
+        docs.push(json!({"dflt": sub, "jobs": [{"cfg": sub, "on": true, "off": false, "none": null}, {"cfg": sub, "on": true, "x": null}], "flags": {"a": true, "b": true, "c": null, "d": null}}));
     }
     if f % 13 == 5 {
         // the same document under 40-125 levels of nesting (still within what serde_json parses)
@@ -313,6 +348,11 @@ fn run_family(seed: u64, f: u64, q_per_fam: usize) -> FamOut {
         let q = g.query(&mut rng, t);
         queries.push(if rng.chance(1, 12) { gen::invalidate(&mut rng, &q) } else { q });
     }
+    if f % 6 == 1 {
+        for q in ["$..[?count(@.*) == 4]", "$.jobs[?count(@.*) >= 3]", "$[?count(@..*) > 10]", "$..[?count(@[*]) == 2]", "$..[?count(@.*) == 2]", "$.jobs[?count(@['on','off','none']) == 3]", "$[?count(@.*) != count(@..*)]"] {
+            queries.push(q.to_string());
+        }
+    }
     if f % 13 == 5 {
         for q in ["$..k", "$..[0]", "$..*", "$[?count(@..k) >= 1]", "$..[?@..k]", "$..a"] {
             queries.push(q.to_string());
@@ -330,6 +370,22 @@ fn run_family(seed: u64, f: u64, q_per_fam: usize) -> FamOut {
             if want.is_err() {
                 out.errs += 1;
             }
+            // the sharing stub, under the two extreme personalities
+            if f % 2 == 1 {
+                let shd = ShareDoc::from_value(d);
+                for pers in [0u8, 7] {
+                    let got = eval_shared(&shd, Personality(pers), q);
+                    out.evals += 1;
+                    out.shared_evals += 1;
+                    if let Some(diff) = compare(&want, &got) {
+                        out.n_viol += 1;
+                        *out.classes.entry(diff.class.clone()).or_insert(0) += 1;
+                        if out.first.is_none() {
+                            out.first = Some((f, Case { personality: pers, doc: d.clone(), query: q.clone(), fat: false, shared: true }, diff));
+                        }
+                    }
+                }
+            }
             // the large node type, under the two extreme personalities
             for pers in [0u8, 7] {
                 let got = eval_sim(&fd, &flocs, Personality(pers), q);
@@ -339,7 +395,7 @@ fn run_family(seed: u64, f: u64, q_per_fam: usize) -> FamOut {
                     out.n_viol += 1;
                     *out.classes.entry(diff.class.clone()).or_insert(0) += 1;
                     if out.first.is_none() {
-                        out.first = Some((f, Case { personality: pers, doc: d.clone(), query: q.clone(), fat: true }, diff));
+                        out.first = Some((f, Case { personality: pers, doc: d.clone(), query: q.clone(), fat: true, shared: false }, diff));
                     }
                 }
             }
@@ -360,7 +416,7 @@ fn run_family(seed: u64, f: u64, q_per_fam: usize) -> FamOut {
                     out.n_viol += 1;
                     *out.classes.entry(diff.class.clone()).or_insert(0) += 1;
                     if out.first.is_none() {
-                        out.first = Some((f, Case { personality: pers, doc: d.clone(), query: q.clone(), fat: false }, diff));
+                        out.first = Some((f, Case { personality: pers, doc: d.clone(), query: q.clone(), fat: false, shared: false }, diff));
                     }
                 } else if out.sample.is_none() && pers == 7 {
                     if let Ok(v) = &got.canon {
@@ -404,6 +460,7 @@ pub fn drive(tier_name: &str, seed: u64, workers: usize) -> i32 {
     outs.sort_by_key(|(f, _)| *f);
     let mut evals = 0u64;
     let mut fat_evals = 0u64;
+    let mut shared_evals = 0u64;
     let mut nonempty = 0u64;
     let mut shapes: BTreeSet<(u8, u64)> = BTreeSet::new();
     let mut counts = [0u64; simdoc::N_ACC];
@@ -416,6 +473,7 @@ pub fn drive(tier_name: &str, seed: u64, workers: usize) -> i32 {
     for (_, o) in outs {
         evals += o.evals;
         fat_evals += o.fat_evals;
+        shared_evals += o.shared_evals;
         nonempty += o.nonempty;
         shapes.extend(o.shapes);
         for i in 0..simdoc::N_ACC {
@@ -533,7 +591,7 @@ pub fn drive(tier_name: &str, seed: u64, workers: usize) -> i32 {
             "personality_bits": "bit0: as_f64 is None for integers; bit1: Default::default() is a sentinel string; bit2: Debug is opaque",
             "how_to_replay": "./check C15 --replay <this file>"});
         let p = report::write_replay("C15", &format!("seed{}-fam{}", seed, f), &body);
-        println!("violation class={} personality={}{} query={} document={} — {}", d2.class, min.personality, if min.fat { " (large node type)" } else { "" }, min.query, min.doc.to_string().chars().take(600).collect::<String>(), d2.detail);
+        println!("violation class={} personality={}{} query={} document={} — {}", d2.class, min.personality, if min.fat { " (large node type)" } else if min.shared { " (sharing stub)" } else { "" }, min.query, min.doc.to_string().chars().take(600).collect::<String>(), d2.detail);
         report::print_violation("C15", &p);
         replay_path = Some(p);
         exit = 1;
@@ -579,6 +637,7 @@ pub fn drive(tier_name: &str, seed: u64, workers: usize) -> i32 {
         "samples": samples,
         "single_threaded_evaluations": evals,
         "evaluations_over_the_large_node_type": fat_evals,
+        "evaluations_over_the_sharing_stub": shared_evals,
         "node_sizes_in_bytes": {"serde_json::Value": std::mem::size_of::<Value>(), "SimDoc": std::mem::size_of::<SimDoc>(), "FatDoc": std::mem::size_of::<FatDoc>()},
         "evaluations_with_non_empty_result": nonempty,
         "value_side_errors": errs,
@@ -591,7 +650,7 @@ pub fn drive(tier_name: &str, seed: u64, workers: usize) -> i32 {
         "simulated_time": format!("{} scheduler steps in the scheduled class; the system under test reads no clock", threaded_steps),
         "faults_injected": {"client_abort": threaded_faults},
         "real_components": ["jsonpath-rust parser and evaluator (generic code instantiated at SimDoc and at serde_json::Value)", "regex", "pest", "Value's extension_custom (the stub delegates to it)"],
-        "stubbed_components": ["the document store: SimDoc, a second Queryable implementation with 8 personalities, and FatDoc, the same view in a node type of about half a kilobyte", "OS scheduling in the scheduled class"],
+        "stubbed_components": ["the document store: SimDoc, a second Queryable implementation with 8 personalities, and FatDoc, the same view in a node type of about half a kilobyte; ShareDoc, a third implementation with hash-consed subtrees and flyweight null/true/false members", "OS scheduling in the scheduled class"],
         "replay": replay_path.as_ref().map(|p: &std::path::PathBuf| p.display().to_string()),
     });
     report::write_evidence(&report::Evidence {
